@@ -40,7 +40,7 @@ CHECKS = {
  'C11': ('input-sweep', 'stateless exhaustive exploration of all action strings over {delete, next} (prefix-closed, each re-executed from a fresh real cursor) for every section content up to size n, set-based oracle',
          'Every delete/next schedule of a walk, for every section size, section, OPT position and compression layout in the bounds, is executed on the real cursor and driven to the end of the walk; exact deletion, void second deletion, no resurrection, full coverage of survivors, final content/count and termination are checked on each.',
          'both cursor protocols after a deletion (restart or continue) are accepted', '§5 C11'),
- 'C12': ('input-sweep', 'exhaustive enumeration: all 65536 header words x all 65536 16-bit arguments of set_flags, x all 256 arguments of set_opcode/set_rcode, x both set_response forms, bit-level reference per setter, whole packet compared',
+ 'C12': ('input-sweep', 'exhaustive enumeration: all 65536 header words x all 65536 16-bit arguments of set_flags, x all 256 arguments of set_opcode/set_rcode, x both set_response forms, bit-level reference per setter, whole packet compared; every ordered pair of setters and one setter on objects with 8 histories of settling calls enumerated likewise',
          'The full 2^32 space (header word x significant argument half) of set_flags and the full spaces of the other setters are enumerated on the real code; the ignored upper argument half is covered per bit and by seed-chosen samples, as the property itself states.',
          'none beyond the bit-level reference of each setter', '§5 C12'),
  'C13': ('input-sweep', 'bounded-exhaustive enumeration of a typed text grammar (valid texts with boundary values x casings x whitespace layouts), its token- and character-level damage closure, and every string over a 12-character alphabet up to length n after each type prefix; reference wire encoder',
